@@ -295,6 +295,11 @@ func WorkerMain(hs []*Harness) int {
 			sum.Violations = append(sum.Violations, fv)
 			// confirm, minimise, write replay, replay again
 			confirm := safeRun(h, c)
+			// a harness whose system under test breaks ties by Go's map order (DTLSR and its dijkstra library)
+			// may need more than one attempt to take the same branch again
+			for try := 1; try < envInt("VERIF_CONFIRM_TRIES", 1) && !confirm.HasSig(v.Prop, v.Sig); try++ {
+				confirm = safeRun(h, c)
+			}
 			if !confirm.HasSig(v.Prop, v.Sig) {
 				sum.Errors = append(sum.Errors, fmt.Sprintf("seed=%d: violation %s did not reproduce on immediate re-run (nondeterminism)", seed, key))
 				continue
